@@ -1047,8 +1047,8 @@ fn on_hold_run_terminates(required: &'static str, secs: u64) -> Option<bool> {
 }
 
 /// (no panic, number of outputs written) of a fresh run where `only_for` is put on hold for `required`
-fn on_hold_run(only_for: &'static str, required: &'static str, secs: u64) -> Option<(bool, usize)> {
-    let (tx, rx) = mpsc::channel::<(bool, usize)>();
+fn on_hold_run(only_for: &'static str, required: &'static str, secs: u64) -> Option<(bool, usize, bool)> {
+    let (tx, rx) = mpsc::channel::<(bool, usize, bool)>();
     std::thread::spawn(move || {
         let r = catch_unwind(|| {
             let res = Resources::from_memory();
@@ -1060,10 +1060,11 @@ fn on_hold_run(only_for: &'static str, required: &'static str, secs: u64) -> Opt
                 only_for: only_for.into(),
             });
             let cfg = Configuration::empty().with_rule(rule);
-            let _ = darklua_core::process(&res, Options::new(INPUT).with_output(OUTPUT).with_configuration(cfg));
-            res.walk(OUTPUT).count()
+            let result = darklua_core::process(&res, Options::new(INPUT).with_output(OUTPUT).with_configuration(cfg));
+            (res.walk(OUTPUT).count(), result.is_ok())
         });
-        let _ = tx.send((r.is_ok(), r.unwrap_or(0)));
+        let (outputs, ok) = r.as_ref().map(|x| *x).unwrap_or((0, false));
+        let _ = tx.send((r.is_ok(), outputs, ok));
     });
     match rx.recv_timeout(Duration::from_secs(secs)) {
         Ok(ok) => Some(ok),
@@ -1521,16 +1522,28 @@ fn main_run(report: &mut Report) {
                 if listed {
                     report.notes.push("F26: the on-hold run terminates now".to_owned());
                 }
+                // and it must report the stall as an error, with the other file processed
+                match on_hold_run("src/a.lua", "lib/not-a-work-item.lua", 8) {
+                    Some((true, 1, false)) => {}
+                    other => report.violation(Violation {
+                        kind: "oracle".into(),
+                        check: "no-loop-on-hold".into(),
+                        what: format!("run with src/a.lua on hold for a path that is no work item: {:?} (expected: no panic, one output, Err result)", other),
+                        input: json!({"rule": "require_content(src/a.lua) = [lib/not-a-work-item.lua]", "files": ["src/a.lua", "src/b.lua"]}),
+                        failing_input_found: true,
+                    }),
+                }
             }
         }
         // an item on hold for ANOTHER work item must finish in a later pass, whichever is visited first
-        for (only_for, required) in [("src/a.lua", "src/b.lua"), ("src/b.lua", "src/a.lua")] {
+        // (the visit order follows the HashMap order of `collect_work`, so repeat to meet both orders)
+        for (only_for, required) in [("src/a.lua", "src/b.lua"), ("src/b.lua", "src/a.lua")].repeat(8) {
             match on_hold_run(only_for, required, 8) {
-                Some((true, 2)) => {}
+                Some((true, 2, true)) => {}
                 other => report.violation(Violation {
                     kind: "oracle".into(),
                     check: "no-loop-on-hold".into(),
-                    what: format!("run with {} on hold for {}: {:?} (expected termination with both outputs written)", only_for, required, other),
+                    what: format!("run with {} on hold for {}: {:?} (expected: no panic, both outputs written, Ok result)", only_for, required, other),
                     input: json!({"rule": format!("require_content({}) = [{}]", only_for, required), "files": ["src/a.lua", "src/b.lua"]}),
                     failing_input_found: true,
                 }),
